@@ -17,7 +17,10 @@ for pr in props:
     out = ''.join(f'import {m}\n' for m in mods) + '\n' + ''.join(f'#print axioms {t}\n' for t in meta['theorems'])
     (V/'lean'/'PyodaProofs'/'Audit'/f'{pr}.lean').write_text(out)
     print(pr, len(meta['theorems']), 'theorems')
+ready = set((V/'READY').read_text().split())
 for p in sorted((V/'harness').glob('c[0-9][0-9].py')):
+    if p.stem.upper() not in ready:
+        continue
     m = re.search(r'"proof_modules":\s*\[([^\]]*)\]', p.read_text())
     if m:
         for x in re.findall(r'"([^"]+)"', m.group(1)):
